@@ -73,4 +73,4 @@ func String(name string, maxLen int) string {
 }
 
 // CancelAnytime lets the environment call cancel at an arbitrary moment.
-func CancelAnytime(cancel func()) { vsched.Go("env-cancel", cancel) }
+func CancelAnytime(cancel func()) { vsched.RegisterEnvCancel(cancel) }
